@@ -29,12 +29,15 @@ def check(repo, tier="quick"):
     res.rule("C22.c", "even field counts: every generator behind progressive_to_pictures yields each source frame a second time exactly when the source is interlaced (so interlaced sources give an even number of fields and no frame is dropped by the pairing); the self-contained generators double their count exactly when pictures are fields")
     res.rule("C22.d", "at least one picture: every generator has an unconditional first yield (or a loop over a count that its callers keep positive); the decorator order is xyz_to_native(progressive_to_pictures(generator))")
 
+    res.rule("C22.f", "one picture per iteration: every loop of the module that yields pictures yields on every iteration -- a yield (or a nested loop that itself yields unconditionally) is a top-level statement of the loop body, and the loop contains no break, continue or return -- so the counts established by C22.b/c are the numbers of pictures actually produced")
     res.rule("C22.e", "range provenance: every component from_xyz returns is the direct result of float_to_int_clipped with that component kind's offset/excursion; float_to_int_clipped clips the rounded integer array to [0, 2**intlog2(excursion+1) - 1], the bit depth video_depth derives from the same excursion; mid_gray and white_noise take shape and value range of each component from that component's own entry of compute_dimensions_and_depths")
     m = repo.mod(PG)
     rule_a(res, m)
     rule_b(res, m)
     rule_c(res, m)
     rule_e(res, repo, m)
+    rule_f(res, m)
+    res.floor("C22.f", 8)
     res.floor("C22.e", 9)
     res.floor("C22.a", 4)
     res.floor("C22.b", 5)
@@ -346,3 +349,46 @@ def rule_e(res, repo, m):
                             and pmatch("(%s[%s].height, %s[%s].width)" % (ddn, c, ddn, c), call.args[2]) is not None
                         )
     res.check(ok, "C22.e", "white_noise:own-shape-and-depth", where, "every component of white_noise must be randint(0, 1 << dd[c].depth_bits, (dd[c].height, dd[c].width)).tolist() for c in Y, C1, C2", by="half-open range [0, 1 << depth) and shape from dd[c]")
+
+
+def rule_f(res, m):
+    def own_nodes(loop):
+        """nodes of the loop, not descending into nested function definitions"""
+        stack = list(loop.body) + list(loop.orelse)
+        while stack:
+            n = stack.pop()
+            if isinstance(n, (ast.FunctionDef, ast.Lambda)):
+                continue
+            yield n
+            stack.extend(ast.iter_child_nodes(n))
+
+    def yields_every_iteration(loop):
+        for s in loop.body:
+            if isinstance(s, ast.Expr) and isinstance(s.value, (ast.Yield, ast.YieldFrom)):
+                return True
+            if isinstance(s, ast.For) and yields_every_iteration(s):
+                return True
+        return False
+
+    n = 0
+    for fn in [f for f in ast.walk(m.tree) if isinstance(f, ast.FunctionDef)]:
+        k = 0
+        for loop in [l for l in ast.walk(fn) if isinstance(l, (ast.For, ast.While))]:
+            # only loops of this function itself
+            if not any(isinstance(x, (ast.Yield, ast.YieldFrom)) for x in own_nodes(loop)):
+                continue
+            owner = loop
+            inner_def = False
+            p = getattr(loop, "_parent", None)
+            while p is not None and p is not fn:
+                if isinstance(p, ast.FunctionDef):
+                    inner_def = True
+                p = getattr(p, "_parent", None)
+            if inner_def:
+                continue
+            k += 1
+            n += 1
+            jumps = [x for x in own_nodes(loop) if isinstance(x, (ast.Break, ast.Continue, ast.Return))]
+            ok = not jumps and yields_every_iteration(loop) and not loop.orelse
+            res.check(ok, "C22.f", "%s:loop%d:yields-every-iteration" % (fn.name, k), "%s:%s" % (m.rel, fn.name), "the loop over `%s` must yield on every iteration (yield at the top level of its body, no break/continue/return%s): otherwise fewer pictures than counted are produced, e.g. an odd number of fields" % (short(loop.iter if isinstance(loop, ast.For) else loop.test, 50), "; found %s at line %d" % (type(jumps[0]).__name__.lower(), jumps[0].lineno) if jumps else ""), by="unconditional yield, no early exit")
+    return n
